@@ -122,3 +122,108 @@ fn kmp_matches() {
         }
     }
 }
+
+// ---------------------------------------------------------------- C20: replaying the full iteration rebuilds the map
+/// the map rebuilt from iter_all() has the same visible values and behaves the same under every continuation of length
+/// <= 2 followed by closing every group (checked against the model of the ORIGINAL, so both the original and the
+/// rebuilt map are compared with the same oracle)
+#[test]
+fn iter_all_replay() {
+    let ops = all_ops();
+    let n = ops.len();
+    let conts: Vec<Vec<Op>> = {
+        let mut c: Vec<Vec<Op>> = vec![vec![]];
+        for a in &ops { c.push(vec![*a]); for b in &ops { c.push(vec![*a, *b]); } }
+        c
+    };
+    for len in 0..=4usize {
+        let mut idx = vec![0usize; len];
+        loop {
+            let h: Vec<Op> = idx.iter().map(|&i| ops[i]).collect();
+            // build the original and its model
+            let mut model = Model { cur: Default::default(), saved: vec![] };
+            let mut hm: GroupingHashMap<u8, u8> = Default::default();
+            for op in &h {
+                apply_model(&mut model, *op);
+                match *op {
+                    Op::Local(k, v) => { hm.insert(k, v, Scope::Local); }
+                    Op::Global(k, v) => { hm.insert(k, v, Scope::Global); }
+                    Op::Begin => hm.begin_group(),
+                    Op::End => { let _ = hm.end_group(); }
+                }
+            }
+            for cont in &conts {
+                let mut rebuilt: GroupingHashMap<u8, u8> = hm.iter_all().map(Item::adapt_map(|(k, v): (u8, &u8)| (k, *v))).collect();
+                let mut m = model.clone();
+                let mut why: Option<String> = None;
+                if visible(&rebuilt) != m.cur { why = Some(format!("rebuilt visible map {:?} != {:?}", visible(&rebuilt), m.cur)); }
+                for op in cont {
+                    if why.is_some() { break; }
+                    let depth = m.saved.len();
+                    apply_model(&mut m, *op);
+                    match *op {
+                        Op::Local(k, v) => { rebuilt.insert(k, v, Scope::Local); }
+                        Op::Global(k, v) => { rebuilt.insert(k, v, Scope::Global); }
+                        Op::Begin => rebuilt.begin_group(),
+                        Op::End => { if rebuilt.end_group().is_err() != (depth == 0) { why = Some("end_group error status differs after replay".into()); } }
+                    }
+                    if why.is_none() && visible(&rebuilt) != m.cur { why = Some(format!("after {:?} the rebuilt map shows {:?}, the original would show {:?}", op, visible(&rebuilt), m.cur)); }
+                }
+                while why.is_none() {
+                    let Some(s) = m.saved.pop() else { break };
+                    m.cur = s;
+                    if rebuilt.end_group().is_err() { why = Some("the rebuilt map has fewer open groups".into()); break; }
+                    if visible(&rebuilt) != m.cur { why = Some(format!("closing a group of the rebuilt map shows {:?}, the original would show {:?}", visible(&rebuilt), m.cur)); }
+                }
+                if why.is_none() && rebuilt.end_group().is_ok() { why = Some("the rebuilt map has more open groups".into()); }
+                if let Some(w) = why {
+                    println!("WITNESS {{\"fn\": \"iter_all\", \"unit_fns\": [\"iter_all\", \"from_iter\", \"insert\", \"end_group\"], \"history\": \"{:?}\", \"continuation\": \"{:?}\", \"observed\": \"{}\"}}", h, cont, w.replace('"', "'"));
+                    return;
+                }
+            }
+            let mut p = 0;
+            loop { if p == len { break; } idx[p] += 1; if idx[p] < n { break; } idx[p] = 0; p += 1; }
+            if p == len { break; }
+        }
+    }
+}
+
+// ---------------------------------------------------------------- C20: the interner when ALL hashes collide
+#[derive(Default, Clone)]
+struct ConstHasher;
+impl std::hash::Hasher for ConstHasher { fn finish(&self) -> u64 { 42 } fn write(&mut self, _: &[u8]) {} }
+#[test]
+fn interner_under_total_collision() {
+    use crate::collections::interner::Interner;
+    let words: Vec<String> = {
+        let mut w = vec![String::new()];
+        for a in ["a", "b", "ab", "é", " "] { w.push(a.to_string()); for b in ["a", "b", ""] { w.push(format!("{a}{b}")); w.push(format!("{b}{a}{a}")); } }
+        w
+    };
+    // every ordering prefix: intern the words in several rotations, duplicates included
+    for rot in 0..words.len() {
+        let mut interner: Interner<std::num::NonZeroU32, std::hash::BuildHasherDefault<ConstHasher>> = Default::default();
+        let mut keys: Vec<(String, std::num::NonZeroU32)> = vec![];
+        for i in 0..2 * words.len() {
+            let w = &words[(i + rot) % words.len()];
+            let k = interner.get_or_intern(w);
+            for (w2, k2) in &keys {
+                if (w2 == w) != (*k2 == k) {
+                    println!("WITNESS {{\"fn\": \"get_or_intern\", \"unit_fns\": [\"get_or_intern\", \"get\", \"resolve\"], \"words\": \"{:?} vs {:?}\", \"observed\": \"keys {:?} and {:?}\", \"expected\": \"equal keys exactly for equal strings\"}}", w2, w, k2, k);
+                    return;
+                }
+            }
+            keys.push((w.clone(), k));
+            for (w2, k2) in &keys {
+                if interner.resolve(*k2) != Some(w2.as_str()) || interner.get(w2) != Some(*k2) {
+                    println!("WITNESS {{\"fn\": \"resolve\", \"unit_fns\": [\"get_or_intern\", \"get\", \"resolve\"], \"words\": \"{:?}\", \"observed\": \"resolve -> {:?}, get -> {:?}\", \"expected\": \"every key resolves to its string\"}}", w2, interner.resolve(*k2), interner.get(w2));
+                    return;
+                }
+            }
+        }
+        if interner.get("never interned").is_some() {
+            println!("WITNESS {{\"fn\": \"get\", \"unit_fns\": [\"get\"], \"words\": \"never interned\", \"observed\": \"a key\", \"expected\": \"None\"}}");
+            return;
+        }
+    }
+}
